@@ -95,6 +95,115 @@ def check_regex_anchors(ctx, rule, modules):
             ob.note('no regular expression gates a string in %s' % ', '.join(m_.relpath for m_ in modules))
 
 
+_CASE_MAPS = {'lower', 'upper', 'casefold', 'swapcase', 'title', 'capitalize'}
+_RANGE_PREDICATES = {'isascii', 'isprintable', 'isalnum', 'isalpha', 'isdigit', 'isdecimal', 'isidentifier'}
+
+
+def _case_mapped(expr, folded):
+    """does the expression denote a case-mapped / normalised copy of the input?"""
+    for n in ast.walk(expr):
+        if isinstance(n, ast.Call) and isinstance(n.func, ast.Attribute) and n.func.attr in _CASE_MAPS:
+            return True
+        if isinstance(n, ast.Call) and ast.unparse(n.func).endswith('normalize'):
+            return True
+        if isinstance(n, ast.Name) and n.id in folded:
+            return True
+    return False
+
+
+def check_raw_range(ctx, rule):
+    """Unicode case mapping sends some non-ASCII characters to ASCII letters (U+212A KELVIN SIGN -> 'k', U+017F -> 's'):
+    a character-range test applied only to a case-mapped copy of the address lets them through.  Every test of the
+    character range in bech32_decode (ord(c) comparisons over the characters, str predicates such as isascii /
+    isprintable, encode('ascii')) is located and the value it inspects is traced back: at least one of them must inspect
+    the parameter itself."""
+    p = ctx.p
+    fi = p.get_function('bech32.bech32_decode')
+    with ctx.obligation(rule, 'bech32.bech32_decode', None, fi.where) as ob:
+        param = fi.params[0]
+        # statements in source order: names that hold a case-mapped copy from a given line on
+        folded_from = {}
+        for n in sorted((x for x in ast.walk(fi.node) if isinstance(x, ast.Assign)), key=lambda x: x.lineno):
+            cur = {nm for nm, ln in folded_from.items() if ln <= n.lineno}
+            if _case_mapped(n.value, cur):
+                for t in n.targets:
+                    if isinstance(t, ast.Name):
+                        folded_from.setdefault(t.id, n.lineno + 0.5)
+            else:
+                for t in n.targets:
+                    if isinstance(t, ast.Name) and t.id in folded_from and not _mentions(n.value, set(folded_from)):
+                        pass
+        sites = []
+
+        def inspected(expr, line):
+            cur = {nm for nm, ln in folded_from.items() if ln <= line}
+            raw = isinstance(expr, ast.Name) and expr.id == param and param not in cur
+            return 'raw' if raw else ('mapped' if _case_mapped(expr, cur) else 'other')
+        for n in ast.walk(fi.node):
+            if isinstance(n, (ast.GeneratorExp, ast.ListComp, ast.SetComp)) and len(n.generators) == 1:
+                g = n.generators[0]
+                tgt = {x.id for x in ast.walk(g.target) if isinstance(x, ast.Name)}
+                uses_ord = any(isinstance(c, ast.Call) and isinstance(c.func, ast.Name) and c.func.id == 'ord'
+                               and c.args and isinstance(c.args[0], ast.Name) and c.args[0].id in tgt for c in ast.walk(n.elt))
+                cmp_ = any(isinstance(c, ast.Compare) for c in ast.walk(n.elt))
+                if uses_ord and cmp_:
+                    sites.append((n.lineno, 'ord() comparison over the characters of `%s`' % ast.unparse(g.iter), inspected(g.iter, n.lineno)))
+            if isinstance(n, ast.For):
+                tgt = {x.id for x in ast.walk(n.target) if isinstance(x, ast.Name)}
+                body_ord = any(isinstance(c, ast.Call) and isinstance(c.func, ast.Name) and c.func.id == 'ord' and c.args
+                               and isinstance(c.args[0], ast.Name) and c.args[0].id in tgt for s_ in n.body for c in ast.walk(s_))
+                if body_ord and any(isinstance(c, ast.Compare) for s_ in n.body for c in ast.walk(s_)):
+                    sites.append((n.lineno, 'ord() comparison in a loop over `%s`' % ast.unparse(n.iter), inspected(n.iter, n.lineno)))
+            if isinstance(n, ast.Call) and isinstance(n.func, ast.Attribute):
+                if n.func.attr in _RANGE_PREDICATES:
+                    sites.append((n.lineno, '%s()' % ast.unparse(n.func), inspected(n.func.value, n.lineno)))
+                if n.func.attr == 'encode' and n.args and isinstance(n.args[0], ast.Constant) and str(n.args[0].value).lower().replace('-', '') in ('ascii', 'usascii'):
+                    sites.append((n.lineno, '%s' % ast.unparse(n), inspected(n.func.value, n.lineno)))
+        # a test delegated to a helper of the module: helper(x) whose body tests the range of its own parameter
+        for n in ast.walk(fi.node):
+            if isinstance(n, ast.Call) and isinstance(n.func, ast.Name) and n.func.id in fi.module.functions and n.args:
+                h = fi.module.functions[n.func.id]
+                if h is fi or not h.params:
+                    continue
+                hp = h.params[0]
+                inner = False
+                for m in ast.walk(h.node):
+                    if isinstance(m, (ast.GeneratorExp, ast.ListComp, ast.SetComp)) and len(m.generators) == 1 \
+                            and isinstance(m.generators[0].iter, ast.Name) and m.generators[0].iter.id == hp \
+                            and any(isinstance(c, ast.Call) and isinstance(c.func, ast.Name) and c.func.id == 'ord' for c in ast.walk(m.elt)) \
+                            and any(isinstance(c, ast.Compare) for c in ast.walk(m.elt)):
+                        inner = True
+                    if isinstance(m, ast.For) and isinstance(m.iter, ast.Name) and m.iter.id == hp and any(
+                            isinstance(c, ast.Call) and isinstance(c.func, ast.Name) and c.func.id == 'ord' for s_ in m.body for c in ast.walk(s_)):
+                        inner = True
+                    if isinstance(m, ast.Call) and isinstance(m.func, ast.Attribute) and m.func.attr in _RANGE_PREDICATES \
+                            and isinstance(m.func.value, ast.Name) and m.func.value.id == hp:
+                        inner = True
+                if inner and not any(isinstance(x, ast.Assign) and any(isinstance(t, ast.Name) and t.id == hp for t in x.targets)
+                                     for x in ast.walk(h.node)):
+                    sites.append((n.lineno, 'range test in helper %s(%s)' % (h.name, ast.unparse(n.args[0])), inspected(n.args[0], n.lineno)))
+        ob.evaluations += 1
+        ob.saw('%d character-range test sites: %s' % (len(sites), [(ln, k) for ln, _w, k in sites]))
+        if not sites:
+            ob.undecided('no test of the character range was recognised in bech32_decode (expected: ord(c) comparisons over the '
+                         'characters or a str predicate); whether characters outside 33..126 are refused is not decided here', fi.where)
+            return
+        if not any(k == 'raw' for _ln, _w, k in sites):
+            mapped = [(ln, w) for ln, w, k in sites if k == 'mapped']
+            if mapped and len(mapped) == len(sites):
+                ob.require(False, 'the character range 33..126 is tested on a case-mapped copy of the address only (%s): a non-ASCII '
+                           'character whose lower/upper case is an ASCII letter (U+212A KELVIN SIGN -> k) passes, and an address with '
+                           'one character substituted decodes' % '; '.join(w for _ln, w in mapped),
+                           '%s:%d' % (fi.module.relpath, mapped[0][0]))
+            else:
+                ob.undecided('the character-range tests inspect values whose relation to the parameter is not recognised: %s'
+                             % [(ln, w) for ln, w, k in sites], fi.where)
+
+
+def _mentions(expr, names):
+    return any(isinstance(n, ast.Name) and n.id in names for n in ast.walk(expr))
+
+
 def run(ctx):
     p = ctx.p
     ctx.explanation = (
@@ -128,6 +237,7 @@ def run(ctx):
     # encode() returns must have been accepted by decode() (which enforces all of it, C11.REF) or, at least, have been
     # bounded to 90 characters - independently of how encode() is otherwise written
     fe = p.get_function('bech32.encode')
+    check_raw_range(ctx, 'C11.RAWRANGE')
     with ctx.obligation('C11.LIMIT', 'bech32.encode', None, fe.where) as ob:
         names = set(mi.functions) - {'encode'}
         summ = refcmp._summaries_for(p, 'bech32', 'encode', names)
